@@ -12,6 +12,7 @@
 //	Delay       sleep D before delivering the response
 //	Corrupt     flip bytes in the response body (after the size prefix)
 //	Rewrite     pass the response frame through Action.Rewrite (see RewriteBody)
+//	DelayBefore sleep D before kfake sees the request (the broker has not acted yet)
 package faultnet
 
 import (
@@ -36,10 +37,11 @@ const (
 	Delay
 	Corrupt
 	Rewrite
+	DelayBefore
 )
 
 func (k Kind) String() string {
-	return [...]string{"pass", "kill-before", "kill-after", "truncate", "delay", "corrupt", "rewrite"}[k]
+	return [...]string{"pass", "kill-before", "kill-after", "truncate", "delay", "corrupt", "rewrite", "delay-before"}[k]
 }
 
 // Action is the decision for one request.
@@ -137,7 +139,7 @@ type Net struct {
 	listeners int
 	seq       atomic.Int64
 	connSeq   atomic.Int64
-	counts    [7]atomic.Int64
+	counts    [8]atomic.Int64
 	conns     map[*conn]struct{}
 }
 
@@ -168,7 +170,7 @@ func (n *Net) Events() []*Event {
 // Fired returns how many times each action kind was applied.
 func (n *Net) Fired() map[string]int64 {
 	m := map[string]int64{}
-	for k := Pass; k <= Rewrite; k++ {
+	for k := Pass; k <= DelayBefore; k++ {
 		if c := n.counts[k].Load(); c > 0 {
 			m[k.String()] = c
 		}
@@ -323,6 +325,9 @@ func (c *conn) onRequest(frame []byte) (kill bool) {
 			r.body = nil
 		}
 		return true
+	}
+	if a.Kind == DelayBefore {
+		time.Sleep(a.D) // this connection's requests reach the broker later, in order
 	}
 	// acks=0 produce has no response
 	if r.Key == 0 {
